@@ -1,5 +1,6 @@
 pub mod c01;
 pub mod c02;
+pub mod c09;
 pub mod c10;
 pub mod c13;
 pub mod c14;
@@ -15,6 +16,7 @@ pub fn dispatch(ctx: &mut Ctx) -> bool {
     match ctx.prop.as_str() {
         "C01" => c01::run(ctx),
         "C02" => c02::run(ctx),
+        "C09" => c09::run(ctx),
         "C10" => c10::run(ctx),
         "C13" => c13::run(ctx),
         "C14" => c14::run(ctx),
